@@ -11,6 +11,7 @@ import Drv.PortMon
 import Drv.Dma
 import Drv.RateConv
 import Drv.Injector
+import Drv.Bist
 open DrvUtil
 
 def main (args : List String) : IO UInt32 := do
@@ -23,6 +24,9 @@ def main (args : List String) : IO UInt32 := do
   | ["c20exp5"] => mapLines i o drvC20exp5; return 0
   | ["c20path4"] => foldLines i o none drvC20path4; return 0
   | ["c20stream4"] => foldLines i o none drvC20stream4; return 0
+  | ["bistgen"] => foldLines i o none drvBistGen; return 0
+  | ["bistchk"] => foldLines i o none drvBistChk; return 0
+  | ["bistspec"] => foldLines i o none drvBistSpec; return 0
   | ["injector"] => foldLines i o none drvInjector; return 0
   | ["ratemon"] => foldLines i o none drvRateMon; return 0
   | ["rateconv"] => foldLines i o none drvRateConv; return 0
